@@ -137,11 +137,25 @@ Fixpoint is_prefix_nat (a b : list nat) : bool :=
 
 Inductive cls := Forbidden | Optional | Mandatory.
 
+(* for every message that was read: (k, position of its read, position at which it was decided) — computed once *)
+Fixpoint read_table (n : nat) (l : list atom) (open_k : option (nat * nat)) : list (nat * nat * option nat) :=
+  match l with
+  | [] => match open_k with Some (k, i) => [(k, i, None)] | None => [] end
+  | a :: r =>
+      if is_reader_atom a then
+        let closed_entry := match open_k with Some (k, i) => [(k, i, Some n)] | None => [] end in
+        closed_entry ++ read_table (S n) r (match a with TRead k => Some (k, n) | _ => None end)
+      else read_table (S n) r open_k
+  end.
+
 (* classification of message k for a stream that subscribed at position c *)
-Definition classify (l : list atom) (c : nat) (k : nat) : cls :=
-  if lt_opt (decided_at l k) c then Forbidden
-  else if lt_opt (index_where (is_read k) 0 l) c then Optional
-  else Mandatory.
+Definition classify (tbl : list (nat * nat * option nat)) (c : nat) (k : nat) : cls :=
+  match find (fun e => Nat.eqb (fst (fst e)) k) tbl with
+  | None => Mandatory                                   (* sent, never read *)
+  | Some e => if lt_opt (snd e) c then Forbidden
+              else if Nat.ltb (snd (fst e)) c then Optional
+              else Mandatory
+  end.
 
 (* candidates for Y(s): for every admissible first message, the matching messages from there on *)
 Fixpoint candidates (mt : nat * mkind -> bool) (cl : nat -> cls) (ms : list (nat * mkind)) : list (list nat) :=
@@ -167,16 +181,16 @@ Fixpoint count_yields_before (s : nat) (n : nat) (l : list atom) : nat :=
    ancestors had already taken when it was cloned off *)
 Record sinfo := { si_id : nat; si_rule : option nat; si_c : nat; si_skip : nat }.
 
-Definition stream_ok (rules : list rspec) (l : list atom) (si : sinfo) : bytes :=
+Definition stream_ok (rules : list rspec) (l : list atom) (tbl : list (nat * nat * option nat)) (ms : list (nat * mkind))
+                     (si : sinfo) : bytes :=
   let s := si_id si in
   let d := index_where (is_gone s) 0 l in
-  let ms := sent_msgs l in
   let mt (p : nat * mkind) := match si_rule si with
                               | None => true
                               | Some j => match nth_error rules j with Some r => spec_matches r (snd p) | None => false end
                               end in
   let y := yields_of s l in
-  let cands := map (skipn (si_skip si)) (candidates mt (classify l (si_c si)) ms) in
+  let cands := map (skipn (si_skip si)) (candidates mt (classify tbl (si_c si)) ms) in
   match d with
   | None => if existsb (nat_list_eqb y) cands then B "OK"
             else B "a-live-stream-did-not-yield-exactly-the-matching-messages-since-it-subscribed"
@@ -242,7 +256,7 @@ Fixpoint first_bad (l : list bytes) : bytes :=
 Definition spec_check (rules : list rspec) (canon : nat -> nat) (h : list oline) : bytes :=
   let l := flatten [] (map o_ev h) in
   let cr := creations l l 0 [] in
-  let per_stream := map (stream_ok rules l) cr in
+  let per_stream := map (stream_ok rules l (read_table 0 l None) (sent_msgs l)) cr in
   let failed := existsb (fun a => match a with TFailRead => true | _ => false end) l in
   let tbl := match rev h with
              | last :: _ => table_ok (length rules) l cr canon failed (o_snap last)
